@@ -68,6 +68,9 @@ func (s *Solver) start() {
 	case "z3":
 		bin = z3Binary()
 		args = []string{"-in", "-memory:3072"}
+	case "z3-old":
+		bin = "/usr/bin/z3"
+		args = []string{"-in", "-memory:3072"}
 	case "z3-new":
 		bin = "z3-new"
 		args = []string{"-in", "-memory:3072"}
